@@ -16,8 +16,11 @@ CfgC04sn == {Cf(FALSE, FALSE, "caother", "password"), Cf(FALSE, FALSE, "casn", "
 CfgC04multi == {Cf(FALSE, FALSE, "ca", "password"), Cf(FALSE, TRUE, "ca", "password")}
 \* WebSocket transport: ws: (clear) and wss: (TLS from the dial on), insecure allowed or not
 CfW(i, sm, wss) == [insecure |-> i, sm |-> sm, tls |-> "none", cred |-> "password", ws |-> TRUE, wss |-> wss, skiptls |-> FALSE, sessalways |-> FALSE]
+\* wss: with a client TLS configuration (the transport must not let it weaken the check against the domain)
+CfgC04wssn == {[CfW(FALSE, FALSE, TRUE) EXCEPT !.tls = t] : t \in {"ca", "casn", "caother"}}
 CfgC04ws == {CfW(i, FALSE, s) : i \in BOOLEAN, s \in BOOLEAN}
 CfgC03ws == {CfW(TRUE, sm, FALSE) : sm \in BOOLEAN} \cup {CfW(FALSE, TRUE, TRUE)}
+CfgC14ws == {[CfW(TRUE, FALSE, FALSE) EXCEPT !.cred = c] : c \in {"password", "token"}}
 CfgC11ws == {CfW(TRUE, TRUE, FALSE)}
 P == <<"PLAIN">>
 MechPlain == {P}
